@@ -839,6 +839,10 @@ func scanFields(buf []byte, i int) (int, []byte, error) {
 
 		if buf[i] == ',' && !quoted {
 			commas++
+			// every field before this comma must have had a key and a value
+			if commas > equals {
+				return i, buf[start:i], fmt.Errorf("invalid field format")
+			}
 		}
 
 		// reached end of block?
